@@ -450,6 +450,89 @@ def split_netloc_table(ctx: Ctx):
     ctx.ob(rule, fi.qual, "empty user", ok, "an empty user must be reported as None", where(fi, fi.node), sample="user or None")
 
 
+CUTS = {"partition", "rpartition", "split", "rsplit", "removeprefix", "removesuffix", "group", "groups", "splitlines"}        # results are substrings
+CLEANING = {"lstrip", "strip", "rstrip", "replace", "translate"}                                # decided by T11
+CASE = {"lower", "upper", "casefold", "title", "capitalize", "swapcase"}
+REWRITING = CASE | {"expandtabs", "zfill", "format", "join", "center", "ljust", "rjust", "encode", "decode", "normalize"}
+IDENTITY_CALLS = {"str", "intern"}
+
+
+def _transformations(res, t, seen):
+    """Follows the text a component is taken from back to the input and yields (name, term) for every step that is not a
+    cut (slice, element of a partition/split): the components of the RFC decomposition are substrings of the cleaned input."""
+    while True:
+        tag = t[0]
+        if tag in ("const", "param"):
+            return
+        if tag in ("sub", "item", "elem"):
+            t = t[1]
+        elif tag == "phi":
+            if t in seen:
+                return
+            seen.add(t)
+            for alt in res.phis.get((t[1], t[2]), ()):
+                yield from _transformations(res, alt, seen)
+            return
+        elif tag == "call" and t[1][0] == "attr" and t[1][1][0] not in ("global", "ext", "builtin", "module"):
+            m = t[1][2]
+            if m in REWRITING:
+                yield m, t
+            elif m not in CUTS | CLEANING:
+                raise AnalysisError(f"split_url: a component is produced by .{m}() - neither a cut nor a known rewriting (unknown idiom)")
+            t = t[1][1]
+        elif tag == "call" and t[1][0] == "attr" and t[1][2] in ("match", "fullmatch", "search") and t[2]:
+            t = t[2][-1]            # a group of a pattern match is a substring of the matched text
+        elif tag == "call":
+            name = t[1][-1] if t[1][0] in ("global", "ext", "builtin", "attr") else show(t[1])
+            texts = [a for a in t[2] if a[0] != "const"]
+            if name in IDENTITY_CALLS and len(texts) == 1:
+                t = texts[0]
+                continue
+            if name in REWRITING or name.endswith("QUOTER") or name in ("quote", "unquote"):
+                yield name, t
+                for a in texts:
+                    yield from _transformations(res, a, seen)
+                return
+            raise AnalysisError(f"split_url: a component is produced by {show(t)[:60]} (unknown idiom)")
+        elif tag == "binop" and t[1] == "Add":
+            yield "concatenation", t
+            return
+        elif tag == "fstr":
+            yield "formatting", t
+            return
+        else:
+            raise AnalysisError(f"split_url: a component is computed as {show(t)[:60]} (unknown idiom)")
+
+
+def split_url_verbatim(ctx: Ctx, positions=(0, 1, 2, 3, 4)):
+    """B3: every component split_url returns is a substring of the cleaned input (the scheme lower-cased): nothing between the
+    cut and the return rewrites the text. `positions` restricts the components the calling property depends on."""
+    rule = "B3"
+    names = ("scheme", "authority", "path", "query", "fragment")
+    ctx.rule(rule, floor=len(positions), what="components of the split are substrings of the cleaned input")
+    fi = ctx.model.func("_parse.split_url")
+    r = analyze(ctx.model, fi)
+    ctx.functions.add(fi.qual)
+    rets = [(v, n) for _s, v, n in r.returns if v[0] == "tuple" and len(v[1]) == 5]
+    if not rets:
+        raise AnalysisError("split_url does not return 5-tuples (unknown idiom)")
+    for i in positions:
+        ctx.instance(rule)
+        bad = {}
+        for v, n in rets:
+            for name, t in _transformations(r, v[1][i], set()):
+                if i == 0 and name == "lower":
+                    continue
+                bad.setdefault(name, (t, n))
+        for name, (t, n) in sorted(bad.items()):
+            ctx.ob(rule, fi.qual, f"{names[i]} rewritten by {name}", False,
+                   f"the {names[i]} split_url returns is not a substring of the input: it passes through {name} ({show(t)[:70]}), so the parts "
+                   f"are no longer the RFC 3986 decomposition of the string and the text that was supplied is not the text that is stored",
+                   where(fi, n), sample="substring of the cleaned input")
+        if not bad:
+            ctx.ob(rule, fi.qual, f"{names[i]} is a substring", True, "", where(fi, fi.node), sample="substring of the cleaned input")
+
+
 def pre_encoded_identity(ctx: Ctx):
     model = ctx.model
     rule = "F1-ENC"
